@@ -257,6 +257,9 @@ def std_stages(tier, seed, battery, closed=("split", "long"), kinds_random=None,
         # a wide (256-slot class) node with later siblings
         st.append(Stage("sim", "alpha/string", "fanw", size, battery, num=(2 if q else 8), depth=(260 if q else 500), ramp=True,
                         invs=["SizeOK", "AllOK", "WFOK"], every=False, batevery=4))
+        # a 16-slot node that gets completely full and is drained again (never grows to the 48-slot class)
+        st.append(Stage("sim", "uint8", "fan16", size, battery, num=(2 if q else 8), depth=(260 if q else 520), ramp=True,
+                        invs=["SearchOK", "SizeOK", "AllOK", "MinMaxOK", "WFOK"], every=False, batevery=1))
         # short cycles through the 4- and 16-slot capacities with extreme-key churn
         st.append(Stage("sim", "uint8", "fan18", size, battery, num=(3 if q else 12), depth=(300 if q else 600), ramp=True,
                         invs=["SearchOK", "SizeOK", "AllOK", "MinMaxOK", "WFOK"], every=False, batevery=1))
@@ -302,6 +305,11 @@ def coll_stages(tier, battery, n=None, ln=None):
     st.append(Stage("sim", "collation/string/und", "han", "q", battery, num=(2 if q else 8), depth=(260 if q else 520), ramp=True,
                     invs=["SizeOK", "AllOK", "WFOK"], every=False, batevery=3))
     st.append(Stage("random", "collation/bytes/und", "han", "q", battery, n=(2 if q else 10), len=(120 if q else 200), batevery=3))
+    # strings of 1000+ characters: sort keys longer than the collator buffer's inline array
+    st.append(Stage("random", "collation/string/und", "textlong", "q", battery, n=(2 if q else 8), len=(24 if q else 50), batevery=4, dumpevery=6))
+    # exactly 16 siblings at one sort-key position
+    st.append(Stage("sim", "collation/string/und", "greek16", "q", battery, num=(2 if q else 8), depth=(220 if q else 440), ramp=True,
+                    invs=["SizeOK", "AllOK"], every=False, batevery=1))
     return st
 
 
@@ -434,6 +442,9 @@ def check_C15(work, prop, tier, seed, t0):
     # queries whose []byte arguments live in caller buffers or are re-slices of keys the tree yielded earlier
     stages.append(Stage("arena", "alpha/bytes", "random", "q", "all", n=(3 if q else 10), len=(40 if q else 100)))
     stages.append(Stage("arena", "alpha/bytes", "prefix", "q", "all", n=(2 if q else 8), len=(40 if q else 100)))
+    for s in stages:
+        if s.typ == "model":
+            s.kw["prebattery"] = True   # reads interleaved before the last step as well: they must not affect it
     if q:
         for s in stages:
             if s.typ == "model":
@@ -596,10 +607,11 @@ def check_C10(work, prop, tier, seed, t0):
     if not violations:
         size = "q" if q else "t"
         tstages = []
-        for kind, u, d in (("alpha/string", "fan18", 300), ("uint8", "fan18", 300), ("collation/string/und", "han", 260),
+        for kind, u, d in (("alpha/string", "fan18", 300), ("uint8", "fan16", 260), ("collation/string/und", "han", 260),
+                           ("collation/string/und", "greek16", 220), ("alpha/bytes", "fan16", 260),
                            ("alpha/bytes", "fanb", 200), ("compound/i8+u16", "tuplefan", 480)):
             tstages.append(Stage("sim", kind, u, size, "search", num=(2 if q else 8), depth=(d if q else 2 * d), ramp=True,
-                                 invs=["SizeOK"], every=False, batevery=(1 if u == "fan18" else 4), start_full=(u == "tuplefan")))
+                                 invs=["SizeOK"], every=False, batevery=(1 if u in ("fan18", "fan16", "greek16") else 4), start_full=(u == "tuplefan")))
         tstages.append(Stage("model", "collation/string/und", "textq", "q", "search"))
         tstages.append(Stage("model", "alpha/string", "split", "q", "search"))
         tree_out = tree_pipeline(work, prop, tstages, ["Inv_C01"], seed, model_invs=["SearchOK"], model_props=[], drive=drive)
